@@ -240,6 +240,63 @@ def gen_case(rng, maxops, natural=None, f2=False, alloc=False):
     return mode + '|' + ' '.join(ops)
 
 
+def enumerate_small(maxlen, where='M'):
+    """every well-formed history of at most maxlen operations over three objects (a managed Box 1,
+    a managed plain object 2, a root Box 3): allocations with the threshold marks `all` or `none`,
+    all ownership links among them (self-ownership and cycles included), del/del_root, collections
+    with the marks {}, {1}, {2} (closed under ownership), a stop/start window, each followed by teardown"""
+    import copy
+    out = []
+    NEW = {1: ('managed', True, 'b1'), 2: ('managed', False, 'n2'), 3: ('root', True, 'B3')}
+
+    def moves(sim):
+        live = [o for o in (1, 2, 3) if sim.alive(o)]
+        stopped = not sim.running
+        for o in (1, 2, 3):
+            if o not in sim.kind and not stopped:
+                for mk in ('all', 'none'):
+                    marks = sim.close({x for x in sim.reg if sim.alive(x)}) if mk == 'all' else sim.close(set())
+                    yield ('new', o, marks)
+        for b in live:
+            if sim.box[b]:
+                for o in live:
+                    if sim.owner_of(o) in (None, b) and o in sim.reg and sim.owned.get(b) != o:
+                        yield ('link', b, o)
+        if not stopped:
+            for o in live:
+                if sim.owner_of(o) is None:
+                    yield ('del', o, None)
+        for m in (set(), {1}, {2}):
+            if all(x in sim.reg and sim.alive(x) for x in m):
+                yield ('collect', None, sim.close(m))
+        yield ('toggle', None, None)
+
+    def rec(sim, toks, stops):
+        out.append(where + 'O|' + ' '.join(toks + ['t']))
+        if len(toks) >= maxlen:
+            return
+        for kind, a, b in moves(sim):
+            s2 = copy.deepcopy(sim)
+            if kind == 'new':
+                k, box, tok = NEW[a]
+                s2.new(a, k, box, b)
+                t = tok + (':' + ','.join(map(str, sorted(b))) if b else '')
+            elif kind == 'link':
+                s2.owned[a] = b; t = 'l%d,%d' % (a, b)
+            elif kind == 'del':
+                t = ('D' if s2.kind[a] == 'root' else 'd') + str(a); s2.gc_rem(a)
+            elif kind == 'collect':
+                t = 'c' + ','.join(map(str, sorted(b))); s2.sweep(b)
+            else:
+                if stops >= 2:
+                    continue
+                t = 's' if s2.running else 'S'; s2.running = not s2.running
+            rec(s2, toks + [t], stops + (kind == 'toggle'))
+
+    rec(Sim(), [], 0)
+    return out
+
+
 # ------------------------------------------------------------------ transcripts
 def split_trailer(line):
     if ' ## ' in line:
@@ -513,7 +570,7 @@ def run(ctx):
             else:
                 ctx.notes.append('witness %s of open finding %s no longer fails: the finding may have been repaired' % (f['witness'], f.get('signature')))
 
-    n = 1200 if quick else 100000
+    n = 4000 if quick else 100000
     maxops = 70 if quick else 110
     cases = []
     for i in range(n):
@@ -521,10 +578,15 @@ def run(ctx):
             cases.append(gen_case(ctx.rng, 14))
         else:
             cases.append(gen_case(ctx.rng, maxops))
+    # bounded search (never the claim): every well-formed history up to a small length over three objects
+    small = enumerate_small(4 if quick else 6, 'M') + (enumerate_small(5, 'T') if not quick else [])
+    ctx.cov['exhaustive'] = {'what': 'all well-formed histories of <= %d operations (+ teardown) over a managed Box, a managed plain object and a root Box'
+                             % (4 if quick else 6), 'cases': len(small)}
+    cases += small
     # a thin stream inside the F2 signature: other violations there would be masked, so keep it small
     cases += [gen_case(ctx.rng, 20, natural=False, f2=True) for _ in range(20 if quick else 500)]
     # destructors that allocate (oracle only: not modelled)
-    cases += [gen_case(ctx.rng, 40, alloc=True) for _ in range(300 if quick else 10000)]
+    cases += [gen_case(ctx.rng, 40, alloc=True) for _ in range(800 if quick else 10000)]
     hist = {}
     for c in cases:
         for t in model_ops(c)[1]:
